@@ -128,30 +128,48 @@ def logical(d: str) -> str:
     return {"lib": "VLib", "gen": "Gen"}.get(d, d)
 
 
-def coq_project() -> None:
-    """(Re)generate coq/_CoqProject and coq/Makefile from the files present now."""
+def coq_project(tag: str = "", files: Sequence[str] | None = None) -> str:
+    """(Re)generate coq/_CoqProject<tag> and coq/Makefile<tag>; return the Makefile name.
+
+    With `files` (paths relative to coq/) the project contains ONLY those files: a check builds the
+    transitive closure of its own Properties file, so a missing or broken file of another property
+    (e.g. a gen/ file that property's translator could not regenerate) cannot break this build."""
     lines = []
     for d in coq_dirs():
         lines.append(f"-Q {d} {logical(d)}")
     lines.append("-arg -w -arg -notation-overridden,-deprecated-hint-without-locality,-deprecated-instance-without-locality,-ambiguous-paths,-deprecated-syntactic-definition")
-    for d in coq_dirs():
-        for f in sorted(os.listdir(os.path.join(COQ, d))):
-            if f.endswith(".v"):
-                lines.append(f"{d}/{f}")
+    if files is None:
+        for d in coq_dirs():
+            for f in sorted(os.listdir(os.path.join(COQ, d))):
+                if f.endswith(".v"):
+                    lines.append(f"{d}/{f}")
+    else:
+        lines += sorted(files)
     txt = "\n".join(lines) + "\n"
-    p = os.path.join(COQ, "_CoqProject")
+    suffix = ("." + tag) if tag else ""
+    p = os.path.join(COQ, "_CoqProject" + suffix)
+    mk = "Makefile" + suffix
     old = open(p).read() if os.path.exists(p) else None
-    if old != txt or not os.path.exists(os.path.join(COQ, "Makefile")):
+    if old != txt or not os.path.exists(os.path.join(COQ, mk)):
         with open(p, "w") as f:
             f.write(txt)
-        sh(["coq_makefile", "-f", "_CoqProject", "-o", "Makefile"], cwd=COQ)
+        sh(["coq_makefile", "-f", "_CoqProject" + suffix, "-o", mk], cwd=COQ)
+    return mk
 
 
-def coq_make(targets: Sequence[str], timeout: float = 900) -> tuple[bool, str]:
-    """Full .vo build of the given targets (paths relative to coq/, '.vo')."""
+def coq_make(targets: Sequence[str], timeout: float = 900, tag: str | None = None) -> tuple[bool, str]:
+    """Full .vo build of the given targets (paths relative to coq/, '.vo') and their dependencies only."""
+    files: list[str] = []
+    for t in targets:
+        v = t[:-1] if t.endswith(".vo") else t
+        for f in closure_files(v):
+            if f not in files:
+                files.append(f)
+    if tag is None:
+        tag = hashlib.sha1(" ".join(sorted(targets)).encode()).hexdigest()[:10]
     with CoqLock():
-        coq_project()
-        st, out = sh(["make", f"-j{NPROC}", "--no-print-directory"] + list(targets), cwd=COQ, timeout=timeout)
+        mk = coq_project(tag, files)
+        st, out = sh(["make", "-f", mk, f"-j{NPROC}", "--no-print-directory"] + list(targets), cwd=COQ, timeout=timeout)
     return st == 0, out
 
 
@@ -495,14 +513,12 @@ def build_extracted(name: str, extract_v: str, driver_ml: str, timeout: float = 
     out_dir = os.path.join(BUILD, name)
     shutil.rmtree(out_dir, ignore_errors=True)
     os.makedirs(out_dir)
+    deps = coq_deps_of(extract_v)
+    okd, outd = coq_make(deps, timeout=timeout, tag="x" + name)
+    if not okd:
+        print(outd[-3000:])
+        return None
     with CoqLock():
-        ok, out = True, ""
-        deps = coq_deps_of(extract_v)
-        coq_project()
-        st, out = sh(["make", f"-j{NPROC}", "--no-print-directory"] + deps, cwd=COQ, timeout=timeout)
-        if st != 0:
-            print(out[-3000:])
-            return None
         flags = []
         for d in coq_dirs():
             flags += ["-Q", os.path.join(COQ, d), logical(d)]
